@@ -241,6 +241,40 @@ func init() {
 				}
 			}
 		}
+		// an index of another kind than the map's key type is not a key of that map, whatever Go's
+		// conversion of it would yield (int -> one-rune string, float -> truncated int): Go does not
+		// compile the navigation, so the template gets an error or nothing - never an element
+		{
+			extra := map[string]interface{}{
+				"bn": map[string]T0{"A": {"bn[A]"}, "1": {"bn[1]"}}, "bi": map[int]T0{1: {"bi[1]"}, 65: {"bi[65]"}}, "bf": map[float64]T0{1: {"bf[1]"}},
+				"bg": map[string][]T0{"A": {{"bg[A][0]"}}}, "i65": 65, "f15": 1.5, "sA": "A",
+			}
+			for _, src := range []string{"bn[65].Name", "bn[i65].Name", "bn[1].Name", "bn[1.5].Name", "bi[1.5].Name", "bi[f15].Name", `bi["1"].Name`, "bi[sA].Name", "bf[1].Name", "bn[true].Name", "bg[65][0].Name"} {
+				for _, form := range []string{"[<%= X %>]", "<% let q = X %>[<%= q %>]"} {
+					tm := strings.Replace(form, "X", src, 1)
+					o := runRenderExtra(RCase{Tmpl: tm, Binds: binds}, extra)
+					e.rep.Evaluations++
+					e.Count("index-of-another-kind")
+					e.Distinct(tm)
+					rp := map[string]interface{}{"tmpl": tm, "observed": o}
+					switch {
+					case o.Class == "PANIC":
+						e.Violate("eval-panic@"+siteOf(o.Msg), fmt.Sprintf("Render panicked on %q: %s", tm, o.Msg), rp)
+					case o.Class == "OK" && o.Out != "[]":
+						e.Violate("c11-other-element", fmt.Sprintf("%s: Go does not compile this navigation, the template rendered %q", tm, o.Out), rp)
+					}
+				}
+			}
+			// the same maps indexed with their own key kind do yield the element
+			for _, t := range [][2]string{{`bn["A"].Name`, "bn[A]"}, {"bn[sA].Name", "bn[A]"}, {"bi[65].Name", "bi[65]"}, {"bi[i65].Name", "bi[65]"}, {`bg["A"][0].Name`, "bg[A][0]"}} {
+				tm := "[<%= " + t[0] + " %>]"
+				o := runRenderExtra(RCase{Tmpl: tm, Binds: binds}, extra)
+				e.rep.Evaluations++
+				if o.Class != "OK" || o.Out != "["+t[1]+"]" {
+					e.Violate(c11key(t[0], o, strings.Trim(o.Out, "[]")), fmt.Sprintf("%s: Go yields %q, the template rendered %q (%s %s)", tm, t[1], o.Out, o.Class, firstLine(o.Msg)), map[string]interface{}{"tmpl": tm, "observed": o})
+				}
+			}
+		}
 		// containers of pointers with nil elements and maps with nil pointer values (Go-only data:
 		// decided by the real engine against Go navigation): a nil element cannot be navigated
 		// further - error or empty output, never a panic, never another element
